@@ -731,7 +731,7 @@ var $assertType = (value, type, returnTuple) => {
     } else if (!isInterface) {
         ok = value.constructor === type;
     } else {
-        var valueTypeString = value.constructor.string;
+        var valueTypeString = value.constructor.id;
         ok = type.implementedBy[valueTypeString];
         if (ok === undefined) {
             ok = true;
